@@ -44,6 +44,21 @@ func (tEcho) VarlinkDispatch(ctx context.Context, c varlink.Call, m string) erro
 	switch m {
 	case "Echo":
 		return c.Reply(ctx, &raw)
+	case "Sleep": // busy for "ms" milliseconds, reading nothing meanwhile
+		var p struct {
+			Ms int `json:"ms"`
+		}
+		json.Unmarshal(raw, &p)
+		time.Sleep(time.Duration(p.Ms) * time.Millisecond)
+		return c.Reply(ctx, &raw)
+	case "Touch": // creates the file "file": the call has been read by the handler
+		var p struct {
+			File string `json:"file"`
+			Pad  string `json:"pad"`
+		}
+		json.Unmarshal(raw, &p)
+		ioutil.WriteFile(p.File, []byte(fmt.Sprint(len(p.Pad))), 0o644)
+		return c.Reply(ctx, json.RawMessage(`{}`))
 	case "Hold": // (C17 leg) stays silent, and reads nothing, until the file "file" exists
 		var p struct {
 			File string `json:"file"`
@@ -223,6 +238,11 @@ type tHistory struct {
 	Seed      int64   `json:"seed"`
 	Transport string  `json:"transport"`
 	Calls     []tCall `json:"calls"`
+	// Final: "oneway-close" - after the calls, a oneway call that keeps the
+	// service busy for 200 ms, a oneway call with PadKiB KiB of parameters, and
+	// Close at once: what Send reported as sent is read by the handler
+	Final  string `json:"final,omitempty"`
+	PadKiB int    `json:"pad_kib,omitempty"`
 }
 
 type tViolation struct {
@@ -245,6 +265,9 @@ func tGen(seed int64) tHistory {
 		}
 		h.Calls = append(h.Calls, c)
 	}
+	if r.Intn(6) == 0 {
+		h.Final, h.PadKiB = "oneway-close", []int{0, 1, 100, 4096}[r.Intn(4)]
+	}
 	return h
 }
 
@@ -264,8 +287,8 @@ func tRun(h tHistory, dir string) (viol []tViolation) {
 	var svc *varlink.Service
 	if h.Transport == "bridge" {
 		os.Setenv("VERIF_BRIDGE_CHILD", "1")
-		os.Setenv("VERIF_BRIDGE_CALLS", fmt.Sprint(len(h.Calls)))
-		conn, err = varlink.NewBridgeWithStderr(os.Args[0]+" -test.run='^TestVerifBridgeChild$'", ioutil.Discard)
+		os.Setenv("VERIF_BRIDGE_CALLS", fmt.Sprint(len(h.Calls)+2))
+		conn, err = varlink.NewBridgeWithStderr("exec "+os.Args[0]+" -test.run='^TestVerifBridgeChild$'", ioutil.Discard)
 		os.Unsetenv("VERIF_BRIDGE_CHILD")
 		if err != nil {
 			fail("transport", "bridge-start-failed", "%v", err)
@@ -342,6 +365,20 @@ func tRun(h tHistory, dir string) (viol []tViolation) {
 			break
 		}
 	}
+	marker := ""
+	if h.Final == "oneway-close" && len(viol) == 0 {
+		marker = filepath.Join(dir, fmt.Sprintf("touched-%d", tCounter))
+		busy := json.RawMessage(`{"ms":200}`)
+		pad := json.RawMessage(fmt.Sprintf(`{"file":%q,"pad":%q}`, marker, strings.Repeat("p", h.PadKiB<<10)))
+		_, err1 := conn.Send(ctx, "org.verif.echo.Sleep", &busy, varlink.Oneway)
+		_, err2 := conn.Send(ctx, "org.verif.echo.Touch", &pad, varlink.Oneway)
+		if err1 != nil || err2 != nil {
+			fail("roundtrip", "oneway-send-failed", "%v / %v", err1, err2)
+			marker = ""
+		}
+	} else if h.Transport == "bridge" && len(viol) == 0 {
+		// (the one-shot child waits for two more calls than were made: end of input ends it)
+	}
 	// a library call that does not return is a finding, and this process is done
 	closed := make(chan struct{})
 	go func() { conn.Close(); close(closed) }()
@@ -351,6 +388,22 @@ func tRun(h tHistory, dir string) (viol []tViolation) {
 		fail("transport", "close-did-not-return", "Connection.Close has not returned after 20 s")
 		tHung = true
 		return
+	}
+	if marker != "" {
+		// Send reported both calls as sent and the connection was closed in an orderly
+		// way: the handler reads them (the bridge child has exited by now; a socket
+		// service gets ten seconds)
+		deadline := time.Now().Add(10 * time.Second)
+		for {
+			if _, err := os.Stat(marker); err == nil {
+				break
+			}
+			if h.Transport == "bridge" || time.Now().After(deadline) {
+				fail("roundtrip", "oneway-call-lost-at-close", "a oneway call with %d KiB of parameters was sent (Send returned nil) and the connection closed; the handler never read it", h.PadKiB)
+				break
+			}
+			time.Sleep(2 * time.Millisecond)
+		}
 	}
 	if svc != nil {
 		svc.Shutdown()
